@@ -183,6 +183,7 @@ type c05Reader struct {
 	paused     bool  // started, but the harness does not read from it yet (pump stalls once the pipe is full)
 	rescanned  bool  // a SetRunId (directory re-scan) happened while it was open
 	mustEnd    bool  // invalidated by a reset (new snapshot, DelRunId): once started it has to end or fail
+	rxFailed   bool  // it read a snapshot whose reception failed (the snapshot left the cache): the end of what it reads
 	limit      int64 // when invalid: first offset/index it may NOT deliver
 	mustFollow bool
 	checked    int
@@ -227,6 +228,7 @@ type c05Env struct {
 	leakedRdbReader bool // a never-started disk snapshot reader was closed by its owner (still registered in the data set)
 	gen       uint64 // vpoll generation of this execution
 	loose     bool            // a writer away from the right edge was accepted: no exact range equality any more
+	snapOnlyLoose bool        // ... accepted on a cache that held only a snapshot, and its log has no byte yet
 	gapLo, gapHi int64        // hole left by such a writer [gapLo,gapHi): offsets in it were never written
 	wakeDesc  bool            // during the current operation poll timers fire in reverse park order
 	snapStalled bool          // memory snapshot writer is waiting for space with all bytes handed over
@@ -863,6 +865,12 @@ func (e *c05Env) expectInvalidatedEnded(ctx string) {
 		if rd.rescanned {
 			e.lastOp = "after-rescan"
 		}
+		if rd.rxFailed {
+			e.lastOp = "snapshot"
+			e.fail("a reader of a snapshot whose reception failed neither ends nor fails: the snapshot has left the cache, nothing can reach the reader any more and it polls for ever", "failed-snapshot-reader-survives",
+				map[string]interface{}{"reader": rd.label, "reader_start": rd.pos, "delivered": n, "when": ctx, "open_readers": len(e.allRd), "now_hist": e.hist, "reader_hist": rd.hist})
+			return
+		}
 		e.fail("a reader that was open when the cache was reset neither ends nor fails: it keeps polling (and would follow whatever segment appears under the next name)", cls,
 			map[string]interface{}{"reader": rd.label, "reader_start": rd.pos, "delivered": n, "aof": rd.aof, "when": ctx, "open_readers": len(e.allRd)})
 		return
@@ -948,12 +956,23 @@ func (e *c05Env) writerEnded() {
 			for _, r := range e.allRd {
 				if !r.aof && !r.invalid && r.hist == e.hist {
 					r.invalid, r.limit = true, e.snap.written
+					// the snapshot it reads has left the cache for good: like a reader open across
+					// a reset it has to end or fail (nothing will ever continue its file), at the
+					// latest when the next reset / DelRunId comes - invalidate() skips it then
+					r.mustEnd, r.rxFailed = true, true
 				}
 			}
 			e.snap = nil
 		}
 	} else if !e.loose && e.aofStart >= 0 && e.right == e.aofStart {
 		e.aofStart, e.right = -1, -1
+	} else if e.snapOnlyLoose && e.aofStart >= 0 && e.right == e.aofStart {
+		// a writer accepted away from a snapshot-only cache's offset ended without a byte: its
+		// empty segment disappears and the cache is snapshot-only again; readers opened in the
+		// empty segment have nothing to follow
+		e.aofStart, e.right = -1, -1
+		e.snapOnlyLoose = false
+		e.relax()
 	}
 }
 
@@ -1051,11 +1070,29 @@ func (e *c05Env) opAof() {
 // (the memory back end's documented rule), or it accepts it and then everything it reports
 // must still be readable and byte-exact (checked by the usual clauses; exact range equality
 // is no longer demanded because the statement does not say which part has to survive).
+// misalignEdge: the position a segment writer has to start at - the right edge of the log,
+// or, for a cache that holds only a complete snapshot (no log byte, no writer), the
+// snapshot's offset: the position the stream continues at.
+func (e *c05Env) misalignEdge() (int64, bool) {
+	if e.aofStart >= 0 && e.right > e.aofStart {
+		return e.right, true
+	}
+	if e.aofStart < 0 && e.w == nil && e.snap != nil && e.snap.complete && !e.snapStalled {
+		return e.snap.left, true
+	}
+	return 0, false
+}
+
 func (e *c05Env) opAofAt(delta int64) {
-	if e.aofStart < 0 || e.right <= e.aofStart {
+	edge, ok := e.misalignEdge()
+	if !ok {
 		return
 	}
-	off := e.right + delta
+	off := edge + delta
+	if off < 0 {
+		return
+	}
+	snapOnly := e.aofStart < 0
 	before := e.view()
 	g := newGate()
 	var h AofChannelWriter
@@ -1074,14 +1111,18 @@ func (e *c05Env) opAofAt(delta int64) {
 	e.relax()
 	e.retireWriter()
 	e.loose = true
-	e.logf("writer at %d accepted (right edge was %d)", off, e.right)
+	e.logf("writer at %d accepted (right edge was %d)", off, edge)
 	if delta > 0 {
 		// nothing was ever written in the hole: bytes left of it may survive or not
-		e.gapLo, e.gapHi = e.right, off
+		e.gapLo, e.gapHi = edge, off
 	}
 	e.hiRight()
 	e.right = off
-	if off < e.aofStart {
+	e.snapOnlyLoose = snapOnly
+	if snapOnly || off < e.aofStart {
+		// (snapshot-only cache: the log starts at the accepted writer; whether the snapshot -
+		// whose continuation at its offset does not exist - stays on offer is judged by what
+		// the cache reports afterwards: everything reported valid must be readable)
 		e.aofStart = off
 	}
 	e.startWriter("aof", g, h)
@@ -1597,7 +1638,7 @@ func (e *c05Env) enabled(tier string) ([]string, map[string]string) {
 	ops = append(ops, "rdbF", "rdbP", "rdbH")
 	if e.w == nil || e.w.kind == "aof" {
 		ops = append(ops, "aof", "aofD")
-		if e.aofStart >= 0 && e.right > e.aofStart && !e.loose && e.cfg.Alpha != "" {
+		if _, ok := e.misalignEdge(); ok && !e.loose && e.cfg.Alpha != "" {
 			ops = append(ops, "aof-", "aof+") // (reduced alphabets only)
 		}
 	}
